@@ -20,6 +20,9 @@ CLAIMED["C06"] = ("E-overflow", "Every tagged +,-,*,/,<<, unary -, conversion (i
                   "against the C++ result type, on the GCC-intrinsic and the portable (Clang, or forced by hook H2) detection paths.", "DESIGN.md §4 C06", None)
 CLAIMED["C07"] = ("E-overflow", "Same executions as C06 under ASan+UBSan(trap)+float-cast-overflow with the CNL abort hook: any trap, fatal signal, internal-error abort, foreign exception or hang on an in-domain operand is attributed to its input and reported.",
                   "DESIGN.md §4 C07", "UBSan/ASan trap monitoring with per-input attribution (sigsetjmp executor + CNL abort hook)")
+CLAIMED["C05"] = ("E-elastic", "Generated elastic_integer / elastic_scaled_integer kernels (operator x digit pair x signedness x narrowest x exponents): every result compared with the exact 256-bit result, "
+                  "checked to lie inside the range its own type declares and against the numeric_limits formula; declared ranges enumerated exhaustively for small digit sums, boundary lattices otherwise; UBSan traps attributed per input.",
+                  "DESIGN.md §4 C05", None)
 PLANNED = {}
 
 
